@@ -307,6 +307,24 @@ int vm_close(int fd) {
   return 0;
 }
 
+/* ---- direct construction of a leftover kernel state (objects without any open handle, as left by dead processes) ---- */
+int vk_setup_sem(int slot, int value) {
+  VASSERT(vk_nsem < VK_NSEM, "kernel model bound: semaphore objects");
+  VASSUME(vk_nsem < VK_NSEM);
+  int obj = vk_nsem++;
+  vk_semval[obj] = value;
+  vk_semname[slot] = obj + 1;
+  return obj;
+}
+int vk_setup_shm(int slot, long size) {
+  VASSERT(vk_nshm < VK_NSHM && vk_nshm < 8 && size >= 0 && size <= VK_SEGMAX, "kernel model bound: shm objects");
+  VASSUME(vk_nshm < VK_NSHM && vk_nshm < 8 && size >= 0 && size <= VK_SEGMAX);
+  int obj = vk_nshm++;
+  vk_shmsize[obj] = size;
+  vk_shmname[slot] = obj + 1;
+  return obj;
+}
+
 /* ---- observation ---- */
 int vk_sem_linked(int slot) { return vk_semname[slot] - 1; }
 int vk_sem_value(int obj) { return vk_semval[obj]; }
